@@ -22,6 +22,7 @@ use syn::spanned::Spanned;
 use syn::{Expr, Stmt};
 
 pub mod target_config;
+pub mod target_search_k;
 
 // ------------------------------------------------------------------------------------------------
 // errors
